@@ -8,6 +8,7 @@ import PdshVerif.Pcp.Refused
 import PdshVerif.Pcp.Mixed
 import PdshVerif.Pcp.MeetsSpec
 import PdshVerif.Pcp.Overwrite
+import PdshVerif.Pcp.Merge
 
 /-! # C11  pdcp/rpdcp reproduce the source tree exactly on every target
 
@@ -31,6 +32,12 @@ write faults (`o.fsize = none`).  Times are in microseconds, the resolution of t
                      -- a regular file that already exists on the target, with any old contents, holds exactly the
                         bytes sent afterwards (the `ftruncate` step: new size 0, a block multiple, old file barely or
                         much longer); old mode kept, or with -p the mode sent; nothing else changes.
+* `copy_onto_existing`, `overwritten_exact`
+                     -- the destination already holds (an older version of) the tree: nodes of the same kind at any depth
+                        (`CompatKids`).  The receiver ends with `mergeKids`: existing regular files hold exactly the bytes
+                        sent, existing directories are entered (with -p re-moded, and re-timed after their entries), what is
+                        missing is created as in `copy_roundtrip`, what the source does not name stays; all replies positive
+                        (`feed_tree_merge`, Pcp/Merge.lean; generalises `feed_tree`: on fresh names `mergeKids = recvKids`).
 * `file_any_size`    -- the single-file case spelled out at the byte level: record + data + NUL, any
                         length (0, 1, ..., beyond several BUFSIZ blocks: `foldl_data` = blocks_concat).
 * `received_file`, `preserve_meta_file`
@@ -188,6 +195,70 @@ theorem copy_meets_spec (o : Opts) (hc : CntOk o) (so : SOpts) (hp : so.preserve
     rw [h1]
   · intro n k _ x _
     exact hl x
+
+/-- **Copying onto a destination that already holds (an older version of) the tree.**  `dest` resolves to an
+existing directory `D`; at the names the sources are sent under there is nothing, or something OF THE SAME KIND,
+recursively (`CompatKids`: a regular file where the source has a regular file, a directory where it has a
+directory -- e.g. whatever an earlier copy left).  Then the receiver fed with the sender's stream ends with
+`mergeKids …`: every regular file of the source holds exactly the source's bytes whatever it held before
+(`merged_file_data`: the old tail is cut off), existing directories are entered (with -p re-moded and, after
+their entries, re-timed), missing nodes are created as in `copy_roundtrip`, entries the source does not name
+stay; and every reply is a positive acknowledgement.  (`feed_tree_merge`/`feed_kids_merge`, Pcp/Merge.lean; on names
+that are not present `mergeKids` is `recvKids`: `mergeKids_fresh`.) -/
+theorem copy_onto_existing (o : Opts) (hc : CntOk o) (hnf : o.fsize = none) (so : SOpts)
+    (hp : so.preserve = o.preserve) (fs : FS)
+    (D : Path) (srcs : List (Str × Tree)) (budget : Nat)
+    (hres : resolve fs o.cwd o.dest = some D) (hdir : fs.isDir D = true)
+    (hsrc : SrcsOk so srcs) (hb : o.dest.length + budget < PCP_PATH_MAX)
+    (hgood : GoodKids budget (namedSrcs so srcs))
+    (hcompat : CompatKids fs D (namedSrcs so srcs)) :
+    (sink o fs (send so srcs)).1 = mergeKids o so.subsec fs D (namedSrcs so srcs) ∧
+    (∀ r ∈ (sink o fs (send so srcs)).2.1, r = Reply.ack) ∧
+    (run o fs (send so srcs)).phase = .done := by
+  have hv : VerifyOk o fs := fun _ => ⟨D, hres, hdir⟩
+  have h0 : enter o (St.init fs) o.dest =
+      { St.init fs with out := [.ack],
+                        stack := [{ targ := o.dest, targisdir := true, setimes := false, mt := default, atm := default }],
+                        phase := .start } := by
+    rw [enter_ok (p := D) hv hres hdir]
+    rfl
+  have hat : AtDir o (enter o (St.init fs) o.dest)
+      { targ := o.dest, targisdir := true, setimes := false, mt := default, atm := default } [] D := by
+    rw [h0]
+    exact ⟨rfl, rfl, rfl, hres, hdir, hv, ⟨usecOk_zero _, usecOk_zero _⟩⟩
+  have hcompat' : CompatKids (enter o (St.init fs) o.dest).fs D (namedSrcs so srcs) := by
+    rw [h0]; exact hcompat
+  have hfed := feed_kids_merge hc hnf so.subsec (namedSrcs so srcs) budget _ _ [] D hat (fun e => by cases e) hb hgood
+    hcompat'
+  rw [← hp, ← send_eq so srcs hsrc] at hfed
+  generalize hst : (send so srcs).foldl (step o) (enter o (St.init fs) o.dest) = st' at hfed
+  obtain ⟨⟨f', hat', _, _⟩, hfs, _, rs, hrs, hrsa⟩ := hfed
+  have hfin : finish o st' = { st' with stack := [], phase := .done } := by
+    unfold finish
+    simp only [hat'.phase]
+    unfold leave
+    simp only [hat'.stack]
+    rfl
+  have hrun : run o fs (send so srcs) = { st' with stack := [], phase := .done } := by
+    unfold run; rw [hst, hfin]
+  refine ⟨?_, ?_, ?_⟩
+  · simp only [sink, hrun, hfs]
+    rw [h0]
+    rfl
+  · intro r hr
+    simp only [sink, hrun, hrs, List.mem_reverse, List.mem_append] at hr
+    rcases hr with hr | hr
+    · exact hrsa.all_ack r hr
+    · rw [h0] at hr
+      simpa using hr
+  · rw [hrun]
+
+/-- ... in which every regular file of the sources holds exactly the source's bytes, whatever was there -/
+theorem overwritten_exact (o : Opts) (hnf : o.fsize = none) (ss : Bool) (fs : FS) (q : Path)
+    (kids : List (Str × Tree)) (n : Str) (m t a : Nat) (d : Str) (hm : (n, Tree.file m t a d) ∈ kids)
+    (hd : kids.Pairwise (fun a b => a.1 ≠ b.1)) :
+    ∃ mo tm, mergeKids o ss fs q kids (q ++ [n]) = some (.file mo tm d) :=
+  merged_file_data o hnf ss fs q kids n m t a d hm hd
 
 /-- **One file of any size** at the byte level (`feed_C` re-stated): at a record boundary in a
 directory, `C<mode> <size> <name>\n` + the bytes + NUL create exactly that file, with two
@@ -1020,6 +1091,20 @@ example :
 example :
     (sink ro (fun p => if p = [[119], [100], [102]] then some (.file 0o644 none [90, 90, 90]) else xfs p)
       [67, 48, 54, 48, 48, 32, 49, 32, 102, 10, 88, 0]).1 [[119], [100], [102]] = some (.file 0o644 none [88]) := by
+  decide +kernel
+
+/-- `/w/d/t` and `/w/d/t/e` are already there -- an older version of `e`, two bytes longer, other mode --: copying
+`t` again with -p replaces the contents, takes over mode and time, and every record is acknowledged
+(`copy_onto_existing` on a concrete instance) -/
+def efs : FS := fun p =>
+  if p = [[119], [100], [116]] then some (.dir 0o700 none)
+  else if p = [[119], [100], [116], [101]] then some (.file 0o600 none [90, 90, 90])
+  else xfs p
+
+example :
+    (sink xo efs (send xso xsrcs)).1 [[119], [100], [116], [101]] = some (.file 0o640 (some ⟨3000, 250⟩) [88]) ∧
+    (sink xo efs (send xso xsrcs)).1 [[119], [100], [116]] = some (.dir 0o750 (some ⟨1000, 7⟩)) ∧
+    (∀ r ∈ (sink xo efs (send xso xsrcs)).2.1, r = Reply.ack) := by
   decide +kernel
 
 end PdshVerif.Props.C11
